@@ -56,10 +56,11 @@ func main() {
 	run := flag.String("run", ".*", "regexp selecting Harness_* functions")
 	out := flag.String("out", "", "output JSON file (default stdout)")
 	workers := flag.Int("workers", 8, "parallel workers")
-	solver := flag.String("solver", "z3", "z3 | z3-new | cvc5")
+	solver := flag.String("solver", "z3-new", "z3 | z3-new | cvc5")
 	timeout := flag.Int("timeout", 10000, "per-query timeout (ms)")
 	maxPaths := flag.Int("maxpaths", 200000, "path budget per harness")
 	maxSteps := flag.Int64("maxsteps", 50_000_000, "instruction budget per path")
+	budget := flag.Duration("budget", 0, "wall-clock budget per harness (0 = none)")
 	trace := flag.Bool("trace", false, "trace instructions")
 	noIfc := flag.Bool("noifconvert", false, "disable if-conversion")
 	skipInit := flag.String("skipinit", "", "comma separated package paths whose init is not run")
@@ -101,6 +102,7 @@ func main() {
 	eng.MaxPaths = *maxPaths
 	eng.MaxSteps = *maxSteps
 	eng.Trace = *trace
+	eng.HarnessBudget = *budget
 	eng.NoIfConvert = *noIfc
 	for _, p := range strings.Split(*skipInit, ",") {
 		if p != "" {
